@@ -64,6 +64,8 @@ AllVals == NumVals \o OtherVals \o StrVals \o Objs
 
 MMVals == <<NumV(NaN), IntV(0), NumV(NZero), IntV(1), IntV(-1), NumV(PInf), NumV(NInf), NumV(Fr(5, 1)),
             Undef, Null, StrV(<<49, 48>>), StrV(<<97>>), O1, O5, O3>>
+MMNums == [i \in 1..20 |-> NumVals[i]] \o [i \in 1..12 |-> NumV(NumNeg(NumsPos[i]))]
+          \o <<NumV(MS!MaxD), NumV(NumNeg(MS!MaxD)), NumV(MS!MinD), NumV(NumNeg(MS!MinD))>>
 OrdVals == <<NumV(NaN), IntV(1), Undef, O1, O5, O9, StrV(<<50>>)>>
 
 MF(f) == [f |-> f]
@@ -81,7 +83,7 @@ MathShapes ==
        <<FnSlot(<<"pow", "atan2">>), OrdVals, OrdVals, OrdVals>>,
        <<FnSlot(<<"max", "min">>)>>, <<FnSlot(<<"max", "min">>), MMVals>>,
        <<FnSlot(<<"max", "min">>), MMVals, MMVals>>, <<FnSlot(<<"max", "min">>), MMVals, MMVals, MMVals>>,
-       <<FnSlot(<<"max", "min">>), NumVals, NumVals>> >>
+       <<FnSlot(<<"max", "min">>), MMNums, MMNums>> >>
 GnumShapes ==
     << <<FnSlot(<<"isNaN", "isFinite">>), AllVals>>, <<FnSlot(<<"isNaN", "isFinite">>)>>,
        <<FnSlot(<<"isNaN", "isFinite">>), OrdVals, OrdVals>> >>
